@@ -132,27 +132,27 @@ def build_kmodel(force=False):
     ext = os.path.join(BUILD, "extract")
     subprocess.run(["rm", "-rf", ext])
     os.makedirs(ext)
+    # All Extract/*.v files are merged into ONE extraction run (separate runs would overwrite each other's shared modules):
+    # the union of their `From KV Require Import ...` modules and of their `Separate Extraction ...` items.
     exdir = os.path.join(COQ, "theories", "Extract")
-    # All Extract/*.v files are merged into ONE `Separate Extraction` (union of the required modules and of the roots):
-    # separate runs would overwrite each other's partial copies of the shared modules (Str, Datatypes, ...).
-    reqs, roots = [], []
+    mods, items = [], []
     for ev in sorted(f for f in os.listdir(exdir) if f.endswith(".v")):
         text = strip_coq_comments(open(os.path.join(exdir, ev)).read())
-        for m in re.finditer(r"From\s+KV\s+Require\s+Import\s+(.*?)\.(?=\s)", text, re.S):
-            reqs += [x for x in m.group(1).split() if x not in reqs]
-        for m in re.finditer(r"Separate\s+Extraction\s+(.*?)\.(?=\s|$)", text, re.S):
-            roots += [x for x in m.group(1).split() if x not in roots]
+        for req in re.finditer(r"From\s+KV\s+Require\s+(?:Import\s+|Export\s+)?(.*?)\.(?=\s)", text, re.S):
+            for name in req.group(1).split():
+                if name not in mods:
+                    mods.append(name)
+        for se in re.finditer(r"Separate\s+Extraction\s+(.*?)\.(?=\s|$)", text, re.S):
+            for it in se.group(1).split():
+                if it not in items:
+                    items.append(it)
     allv = os.path.join(ext, "ExtractAll.v")
     with open(allv, "w") as f:
-        f.write("From Coq Require Import Extraction ExtrOcamlBasic ExtrOcamlNativeString.\n"
-                "From KV Require Import %s.\nExtraction Blacklist String List Bool.\nSeparate Extraction\n  %s.\n"
-                % (" ".join(reqs), "\n  ".join(roots)))
-    rc, out = run_cmd(["coqc", "-Q", os.path.join(COQ, "theories"), "KV", allv], cwd=ext, timeout=900)
-    for junk in ("ExtractAll.vo", "ExtractAll.glob", "ExtractAll.vok", "ExtractAll.vos", ".ExtractAll.aux"):
-        try:
-            os.remove(os.path.join(ext, junk))
-        except OSError:
-            pass
+        f.write("From Coq Require Import Extraction ExtrOcamlBasic ExtrOcamlNativeString.\n")
+        f.write("From KV Require Import %s.\n" % " ".join(mods))
+        f.write("Extraction Blacklist String List Bool.\n")
+        f.write("Separate Extraction\n  %s.\n" % "\n  ".join(items))
+    rc, out = run_cmd(["coqc", "-Q", os.path.join(COQ, "theories"), "KV", allv], cwd=ext, timeout=1800)
     if rc:
         return False, "extraction failed:\n%s" % out
     odir = os.path.join(VERIF, "ocaml")
